@@ -5,7 +5,7 @@ ElemDef == ValSet \cup {NULL}
 
 SrcSeq == [i \in 1..L |-> 10 + i - 1]
 Items ==
-    CASE kind \in {"titer", "fill", "clip", "to_trust"} -> SrcSeq
+    CASE kind \in {"titer", "fill", "clip", "to_trust", "to_trust_f"} -> SrcSeq
       [] kind = "map" -> [i \in 1..L |-> SrcSeq[i] + 100]
       [] kind \in {"shift", "vshift"} -> DefShift(SrcSeq, p, NULL)
       [] kind \in {"pipe2", "pipe3"} -> DefShift(DefShift(SrcSeq, p, NULL), q, NULL)
